@@ -13,7 +13,6 @@ import (
 	"github.com/libsv/go-bt/v2"
 	"github.com/libsv/go-bt/v2/bscript"
 	"github.com/libsv/go-bt/v2/bscript/interpreter"
-	"github.com/libsv/go-bt/v2/bscript/interpreter/scriptflag"
 	"pgregory.net/rapid"
 
 	"verif/harness/interp"
@@ -64,9 +63,9 @@ func check(ctx *pbt.Ctx, c Case) error {
 	var panicked any
 	func() {
 		defer func() { panicked = recover() }()
-		execErr = interpreter.NewEngine().Execute(
-			interpreter.WithTx(tx, c.Idx, &bt.Output{Satoshis: c.Amount, LockingScript: lockObj}),
-			interpreter.WithFlags(scriptflag.Flag(flags)), interpreter.WithDebugger(rec))
+		opts := append([]interpreter.ExecutionOptionFunc{interpreter.WithTx(tx, c.Idx, &bt.Output{Satoshis: c.Amount, LockingScript: lockObj})},
+			libexec.FlagOpts(flags, len(c.Lock)+len(c.Unlock))...)
+		execErr = interpreter.NewEngine().Execute(append(opts, interpreter.WithDebugger(rec))...)
 	}()
 	id := fmt.Sprintf("unlock=%x lock=%x flags=%#x idx=%d amount=%d [%s]", []byte(c.Unlock), []byte(c.Lock), c.Flags, c.Idx, c.Amount, c.Desc)
 	if panicked != nil {
